@@ -300,6 +300,9 @@ def chk_query(rec, be):
                 num("integral((a,b))", lambda: obj.integral((a, b)), (v, m))
                 num("integral([a,b])", lambda: obj.integral([a, b]), (v, m))
                 num("avrg((a,b))", lambda: obj.avrg((a, b)), ratio)
+                # a sequence may list an interval twice (or overlapping ones): several intervals ADD UP
+                num("integral([(a,b),(a,b)])", lambda: obj.integral([(a, b), (a, b)]), (2 * v, 2 * m))
+                num("avrg([(a,b),(a,b)])", lambda: obj.avrg([(a, b), (a, b)]), ratio)
             elif k == "full":
                 num("integral()", lambda: obj.integral(), (v, m))
                 num("integral(None)", lambda: obj.integral(None), (v, m))
@@ -328,6 +331,12 @@ def chk_query(rec, be):
             num("integral((a,b))", lambda: obj.integral((a, b)), v * sg, sg)
             num("integral([a,b])", lambda: obj.integral([a, b]), v * sg, sg)
             num("avrg((a,b))", lambda: obj.avrg((a, b)), v * sg / (b - a))
+            num("avrg([(a,b),(a,b)])", lambda: obj.avrg([(a, b), (a, b)]), v * sg / (b - a))
+            # a copy is independent: scaling it must not change what the original answers
+            st, g = call(lambda: obj.copy())
+            if st == "ok":
+                call(lambda: g.mul_scalar(3.0))
+                num("integral((a,b)) after copy().mul_scalar(3)", lambda: obj.integral((a, b)), v * sg, sg)
         elif k == "full":
             T = float(fo["x"][-1] - fo["x"][0]) * sg
             num("integral()", lambda: obj.integral(), v * sg, sg)
